@@ -260,6 +260,42 @@ func init() {
 		ms.addAt("ghost.rpos", SArr(SInt, x.idxSort()), recvExpr(e), x.info)
 		ms.add("ghost.iofail", SBool)
 	}
+	// ReadString / ReadByte on a buffered reader: what matters to callers is how far the reader
+	// advances; the content is any string / byte (the source may be a network connection)
+	libModels["bufio.Reader.ReadString"] = func(x *Exec, st *State, e *ast.CallExpr, recv *Val) []Val {
+		c := x.c
+		x.expr(st, e.Args[0])
+		x.nilCheck(st, recv.T, "ReadString on nil reader")
+		x.ioFail(st, "readstring")
+		s := x.freshVal(st, "readstring", types.Typ[types.String])
+		err := x.freshErr(st, "readstring_err")
+		n := c.App("str_len", s.T)
+		x.assume(st, x.idxLe(x.idxLit(0), n))
+		x.assume(st, c.Implies(c.Eq(err.T, c.Int(0)), x.idxLe(x.idxLit(1), n)))
+		pos := x.gsel(st, "ghost.rpos", recv.T)
+		x.gset(st, "ghost.rpos", recv.T, x.idxAdd(pos, n))
+		x.assumed["bufio.Reader.ReadString: any string (at least the delimiter when err == nil), the reader advances by its length"] = true
+		return []Val{s, err}
+	}
+	libMods["bufio.Reader.ReadString"] = func(x *Exec, ms *modSet, e *ast.CallExpr) {
+		ms.addAt("ghost.rpos", SArr(SInt, x.idxSort()), recvExpr(e), x.info)
+		ms.add("ghost.iofail", SBool)
+	}
+	libModels["bufio.Reader.ReadByte"] = func(x *Exec, st *State, e *ast.CallExpr, recv *Val) []Val {
+		c := x.c
+		x.nilCheck(st, recv.T, "ReadByte on nil reader")
+		x.ioFail(st, "readbyte")
+		b := x.freshVal(st, "readbyte", u8)
+		err := x.freshErr(st, "readbyte_err")
+		pos := x.gsel(st, "ghost.rpos", recv.T)
+		x.gset(st, "ghost.rpos", recv.T, c.Ite(c.Eq(err.T, c.Int(0)), x.idxAdd(pos, x.idxLit(1)), pos))
+		x.assumed["bufio.Reader.ReadByte: any byte or any error; the reader advances by one on success"] = true
+		return []Val{b, err}
+	}
+	libMods["bufio.Reader.ReadByte"] = func(x *Exec, ms *modSet, e *ast.CallExpr) {
+		ms.addAt("ghost.rpos", SArr(SInt, x.idxSort()), recvExpr(e), x.info)
+		ms.add("ghost.iofail", SBool)
+	}
 	libModels["io.ReadFull"] = func(x *Exec, st *State, e *ast.CallExpr, recv *Val) []Val {
 		c := x.c
 		r := x.expr(st, e.Args[0])
